@@ -112,8 +112,12 @@ func (n *Node) Coherent(known [][]byte) *CoherentRsp {
 							}
 						}
 					}
-					if mr := rsp.Receipts.MerkleRoot(); !bytes.Equal(mr, cur.GetHeader().GetReceiptsRootHash()) {
-						bad("height %d: receipts merkle root %x != header %x", no, mr, cur.GetHeader().GetReceiptsRootHash())
+					// the merkle root is recomputed from the stored receipts themselves: the query
+					// surface rewrites ContractAddress (AddressOrigin) for display
+					if sr := n.StoredReceipts(cur.BlockHash(), no); sr.Err != "" {
+						bad("height %d: stored receipts unreadable: %s", no, sr.Err)
+					} else if !bytes.Equal(sr.Root, cur.GetHeader().GetReceiptsRootHash()) {
+						bad("height %d: receipts merkle root %x != header %x", no, sr.Root, cur.GetHeader().GetReceiptsRootHash())
 					}
 				}
 			}
